@@ -7,6 +7,11 @@ complete space (every verb of both lexicons x 21 tenses x 3 persons x 2 numbers,
 four values of the `.aux()` option), 16 worker processes.  Quick tier: every (table, aux, pat, h) class once, plus a
 seeded sample of the other verbs.
 
+Variant strata (sampled in both tiers, wider in thorough): the same forms with the person in its string spelling,
+with the other language current (explicit `lang` argument / language switched between construction and
+realization), and with the tense inherited from an enclosing VP / S / root (pronoun subject), realized three times:
+each must give the form predicted for the plain verb.
+
 Direct oracle (`spec_en`, `spec_fr` below): the declarative tense table of the property — periphrase skeleton +
 which cell of which row, a cell rendered stem + ending, a missing row / null cell rendered `[[lemma]]` with exactly
 one warning — recomputed in Python straight from rules-*.json, independently of the Lean model, and compared with
@@ -490,6 +495,204 @@ def work(args):
     return res
 
 
+# ---------------------------------------------------------------------------------------------------- variant strata
+# The same (verb, tense, person, number, gender, aux) forms reached another way; the expected form is the one the
+# model and the specification give for the plain `V(lemma).t(t).pe(pe).n(n)...` of the verb's own language.
+#   strpe          person given in its string spelling: .pe("2")                       (conjugate uses int(pe))
+#   lang-explicit  V(lemma, lang) built and realized while the OTHER language is current
+#   lang-switch    V(lemma) built under the verb's language, realized after loading the other one
+#   vp, vp-t       VP(V(lemma)) with the options on the VP / only the tense on the VP — realized three times
+#   s, root        S(Pro, VP(V)).t(t) and root(V, subj(Pro)).t(t), pronoun subject — realized three times
+# vp/s/root inherit the tense from the enclosing phrase; they are restricted to verbs that are not essentially
+# reflexive, tenses other than the imperative, and forms that exist (no warning), so that agreement and pronoun
+# placement stay trivially known.
+
+VARIANTS = ["strpe", "lang-explicit", "lang-switch", "vp", "vp-t", "s", "root"]
+PHRASE_VARIANTS = ("vp", "vp-t", "s", "root")
+SUBJ = {"fr": {(1, "s"): "je", (2, "s"): "tu", (3, "s", "m"): "il", (3, "s", "f"): "elle", (1, "p"): "nous", (2, "p"): "vous",
+               (3, "p", "m"): "ils", (3, "p", "f"): "elles"},
+        "en": {(1, "s"): "I", (2, "s"): "you", (3, "s", "m"): "he", (3, "s", "f"): "she", (1, "p"): "we", (2, "p"): "you",
+               (3, "p", "m"): "they", (3, "p", "f"): "they"}}
+
+
+def sentence(lang, entry, pe, n, g, text):
+    """pronoun subject + verb group, as a top-level sentence: elision of `je`, capital, full stop"""
+    subj = SUBJ[lang].get((pe, n)) or SUBJ[lang][(pe, n, g)]
+    if lang == "fr" and subj == "je":
+        c = text[:1].lower()
+        if c in VOWELS or (c == "h" and not (entry.get("h") == 1)):
+            subj = "j'"
+    s_ = subj + ("" if subj.endswith("'") else " ") + text
+    return s_[:1].upper() + s_[1:] + ". "
+
+
+def expected_variant(line, text):
+    """what the variant must give when the plain form is `text` (no warning)"""
+    if line["variant"] in ("s", "root"):
+        return sentence(line["lang"], line["entry"], line["pe"], line["n"], line["g"], text)
+    return text
+
+
+def run_variant(impl, line, site=False):
+    """-> list of outputs (one per realization), each `text`, `text\tW` or `!Exc[@site]`"""
+    p = impl.p
+    lang, lemma, t, pe, n, g, aux, var = (line[k] for k in ("lang", "lemma", "t", "pe", "n", "g", "aux", "variant"))
+    load = p.loadFr if lang == "fr" else p.loadEn
+    other = p.loadEn if lang == "fr" else p.loadFr
+
+    def opts(c, with_t=True, person=pe):
+        if with_t:
+            c = c.t(t)
+        c = c.pe(person).n(n)
+        if lang == "fr":
+            c = c.g(g)
+        return c
+
+    def verb(langarg=None):
+        v = p.V(lemma, langarg) if langarg else p.V(lemma)
+        if lang == "fr" and aux is not None:
+            v = v.aux(aux)
+        return v
+
+    def pro():
+        return p.Pro("je" if lang == "fr" else "I").pe(pe).n(n).g(g)
+
+    outs = []
+    impl.nwarn = 0
+    impl.depth = 0
+    try:
+        if var == "strpe":
+            load()
+            e, times = opts(verb(), person=str(pe)), 1
+        elif var == "lang-explicit":
+            other()
+            e, times = opts(verb(lang)), 1
+        elif var == "lang-switch":
+            load()
+            e, times = opts(verb()), 1
+            other()
+        elif var == "vp":
+            load()
+            e, times = opts(p.VP(verb())), 3
+        elif var == "vp-t":
+            load()
+            e, times = p.VP(opts(verb(), with_t=False)).t(t), 3
+        elif var == "s":
+            load()
+            e, times = p.S(pro(), p.VP(verb())).t(t), 3
+        else:
+            load()
+            e, times = p.root(verb(), p.subj(pro())).t(t), 3
+        for _ in range(times):
+            w0 = impl.nwarn
+            r = e.realize()
+            w = impl.nwarn - w0 + (w0 if not outs else 0)      # construction warnings count with the first realization
+            outs.append(r if w == 0 else "%s\t%d" % (r, w))
+    except Exception as ex:  # noqa: an exception is an output
+        outs.append("!" + type(ex).__name__ + ("@" + crash_site(ex) if site else ""))
+    finally:
+        load()
+    return outs
+
+
+def judge_variant(D, line, outs, outs_site=None):
+    """None, or (signature, detail): the variant must give, at every realization, the form of the plain verb"""
+    lang, lemma, entry, t, pe, n, g, aux, var = (line[k] for k in ("lang", "lemma", "entry", "t", "pe", "n", "g", "aux", "variant"))
+    sp = spec_en(D, lemma, entry, t, pe, n) if lang == "en" else spec_fr(D, lemma, entry, t, pe, n, g, aux)
+    head = "C01|%s|V|variant=%s|t=%s|%s" % (lang, var, t, tab_class(D, lang, entry, t))
+    if lang == "fr" and (t in FR_COMPOUND or t == "pp"):
+        head += "|aux=%s%s" % (entry.get("aux", "-"), "" if aux is None else ">" + aux)
+    if sp is None:
+        want = "[[%s]]" % lemma
+        wants = None
+    else:
+        want = expected_variant(line, " ".join(sp.words))
+        wants = want if sp.w == 0 else "%s\t%d" % (want, sp.w)
+    for k, o in enumerate(outs, 1):
+        if o.startswith("!"):
+            site = (outs_site or outs)[min(k, len(outs_site or outs)) - 1]
+            return head + "|realization#%d|exception=%s" % (k, site[1:]), "realization #%d raised %s; expected %r" % (k, o[1:], want)
+        if wants is None:
+            text, _, w = o.partition("\t")
+            if text != want or not w:
+                return head + "|realization#%d|want=[[lemma]]+warning|got=%s" % (k, abstract(text, lemma)), \
+                    "realization #%d gave %r; expected %r with a warning" % (k, o, want)
+        elif o != wants and not (k > 1 and sp.w and o.split("\t")[0] == want):
+            text = o.split("\t")[0]
+            inner = text
+            if var in ("s", "root") and text.endswith(". "):        # strip subject and full stop for the abstraction
+                inner = text[:-2].split(" ", 1)[-1] if " " in text[:-2] and not text.lower().startswith("j'") else text[2:-2]
+            return head + "|realization#%d|want=%s,w=%d|got=%s" % (k, " ".join(sp.skel), sp.w, abstract(inner, lemma, sp)), \
+                "realization #%d gave %r; expected %r" % (k, o, wants)
+    return None
+
+
+def variant_lines(ctx, D, pairs):
+    """seeded sample: per verb and variant, one periphrastic/compound tense, one simple finite tense, random others"""
+    rng = ctx.rng
+    nverbs, extra = (450, 1) if ctx.tier == "quick" else (4000, 4)
+    sample = pairs if len(pairs) <= nverbs else rng.sample(pairs, nverbs)
+    lines = []
+    for lang, lemma in sample:
+        entry = D.entry(lang, lemma)
+        if entry is None:
+            continue
+        peri = list(FR_COMPOUND) if lang == "fr" else ["f", "c", "bp", "bp-to"]
+        fin = FR_FINITE if lang == "fr" else ["p", "ps", "s", "si"]
+        for var in VARIANTS:
+            if var in PHRASE_VARIANTS and entry.get("pat") == ["réfl"]:
+                continue
+            tenses = [rng.choice(peri), rng.choice(fin)] + [rng.choice(TENSES) for _ in range(extra)]
+            for t in tenses:
+                pe, n, g = rng.choice(PES), rng.choice(NS), rng.choice(GS)
+                aux = rng.choice(AUXS) if (lang == "fr" and rng.random() < 0.3) else None
+                if var in PHRASE_VARIANTS:
+                    if t == "ip":
+                        continue
+                    sp = spec_en(D, lemma, entry, t, pe, n) if lang == "en" else spec_fr(D, lemma, entry, t, pe, n, g, aux)
+                    if sp is None or sp.w:
+                        continue
+                l = form_input(lang, lemma, entry, t, pe, n, g, aux)
+                l["variant"] = var
+                lines.append(l)
+    return lines
+
+
+def work_variants(args):
+    items = args
+    D = _W["D"]
+    impl = get_impl()
+    res = {"n": 0, "fails": {}, "diffs": [], "ndiffs": 0, "dist": {}}
+    for line, m in items:
+        outs = run_variant(impl, line)
+        res["n"] += 1
+        key = "%s,%s" % (line["lang"], line["variant"])
+        res["dist"][key] = res["dist"].get(key, 0) + 1
+        # model: the plain form, carried through the same (trivial) embedding
+        if "err" in m:
+            mm = "!" + m["err"]
+        else:
+            mt = expected_variant(line, m["r"])
+            mm = mt if m["w"] == 0 else "%s\t%d" % (mt, m["w"])
+        bad_model = any((o.split("@")[0] if o.startswith("!") else o) != mm and not (k > 0 and o.split("\t")[0] == mm.split("\t")[0])
+                        for k, o in enumerate(outs))
+        if bad_model:
+            res["ndiffs"] += 1
+            if len(res["diffs"]) < 10:
+                res["diffs"].append([line, mm, outs])
+        j = judge_variant(D, line, outs)
+        if j is not None:
+            if any(o.startswith("!") for o in outs):
+                j = judge_variant(D, line, outs, run_variant(impl, line, site=True)) or j
+            sig, detail = j
+            f = res["fails"].get(sig)
+            if f is None:
+                res["fails"][sig] = [line, detail, 1]
+            else:
+                f[2] += 1
+    return res
+
+
 def form_input(lang, lemma, entry, t, pe, n, g, a):
     return {"op": "conj", "lang": lang, "lemma": lemma, "entry": entry, "t": t, "pe": pe, "n": n, "g": g, "aux": a}
 
@@ -663,6 +866,34 @@ def run(ctx, deep=False):
                 fails[sig] = [l, detail, 1]
             else:
                 fails[sig][2] += 1
+    # variant strata (string person, other language current, tense inherited from an enclosing phrase + re-realization)
+    vlines = variant_lines(ctx, D, pairs)
+    vans = core.run_driver([{k: v for k, v in l.items() if k != "variant"} for l in vlines], ctx.driver)
+    for l, m in zip(vlines, vans):
+        if "driver_error" in m:
+            raise core.Infra("driver error on %s: %s" % (core.canon(l)[:300], m["driver_error"]))
+    items = list(zip(vlines, vans))
+    nch = 64
+    with mp.Pool(16) as pool:
+        vres = pool.map(work_variants, [items[i::nch] for i in range(nch) if items[i::nch]], chunksize=1)
+    vdist = {}
+    for r in vres:
+        ctx.cov["evaluations"] += r["n"]
+        ctx.cov["traces_validated_against_impl"] += r["n"]
+        ndiffs += r["ndiffs"]
+        for k, v in r["dist"].items():
+            vdist[k] = vdist.get(k, 0) + v
+        for l, mm, outs in r["diffs"]:
+            ctx.diff(l, {"out": mm}, {"out": outs})
+        for sig, (inp, detail, cnt) in r["fails"].items():
+            if sig not in fails:
+                fails[sig] = [inp, detail, cnt]
+            else:
+                fails[sig][2] += cnt
+    ctx.notes["variant_strata(lang,variant)"] = dict(sorted(vdist.items()))
+    for l, m in items[:3]:
+        if len(ctx.cov["samples"]) < 14:
+            ctx.cov["samples"].append({"line": l, "answer": m})
     for sig, (inp, detail, cnt) in sorted(fails.items()):
         ctx.fail(sig, inp, "%s  [%d form(s) of this run share the signature]" % (detail, cnt))
         if hasattr(ctx, "fail_counts"):
@@ -697,6 +928,14 @@ def replay(path):
         inp = inp["input"]
     D = Data()
     impl = get_impl()
+    if inp.get("variant"):
+        outs = run_variant(impl, inp, site=True)
+        plain_outs = [o.split("@")[0] if o.startswith("!") else o for o in outs]
+        j = judge_variant(D, inp, plain_outs, outs)
+        print(json.dumps({"variant": inp["variant"], "form": {k: inp[k] for k in ("lang", "lemma", "t", "pe", "n", "g", "aux")},
+                          "realizations": outs, "verdict": "violates C01" if j else "conforms",
+                          "signature": j[0] if j else None, "detail": j[1] if j else None}, ensure_ascii=False, indent=1))
+        return 1 if j else 0
     got = impl.form(inp["lang"], inp["lemma"], inp["t"], inp["pe"], inp["n"], inp["g"], inp.get("aux"), site=True)
     plain = got.split("@")[0] if got.startswith("!") else got
     j = judge(D, inp["lang"], inp["lemma"], inp.get("entry"), inp["t"], inp["pe"], inp["n"], inp["g"], inp.get("aux"), plain)
